@@ -3,7 +3,7 @@ import QipVerif.Gen.DeviceTables
 import QipVerif.Gen.DecompAlias
 /-! Driver for the model of `ModelProcessor.transpile` (C13).
 
-* `transpile dev=<device> n=N [m=M] [pre=0|1] gates=<list>` → `ok <list>` | `err route:<kind>` | `err decomp:<kind>`
+* `transpile dev=<device> n=N [m=M] [pre=0|1] [rz=0|1] gates=<list>` → `ok <list>` | `err route:<kind>` | `err decomp:<kind>`
   | `err size`  (`n` = `qc.N`, `m` = `processor.num_qubits`, default `n`; `pre` overrides the regenerated
   `Gen.preDecompose`; gate syntax of `Util/GateIO.lean`)
   Alias names with a rule (`Gen.ruleAlias`: `H`, C03's regenerated table) are read as their canonical name when the
@@ -11,7 +11,7 @@ import QipVerif.Gen.DecompAlias
   than two qubits) and is always rewritten by the native stage, so its own name occurs nowhere in the result.
 * `route setup=linear|circular n=N gates=<list>` → the routing stage alone
 * `tables` → the regenerated device tables:
-  `pre=<0|1> guard=<0|1> <device>=<native names,…|None>:<setup>:<setup when qc.N < num_qubits> …`
+  `pre=<0|1> guard=<0|1> rzx=<0|1> <device>=<native names,…|None>:<setup>:<setup when qc.N < num_qubits> …`
 * `coupled dev=<device> n=N gates=<list>` → `1`/`0` per gate (the model's coupling predicate)
 -/
 open QipVerif QipVerif.Proto QipVerif.GateIO QipVerif.Transpile
@@ -53,7 +53,8 @@ def step (line : String) : String :=
           gs.map fun g => if g.qubits.length = 1 then
             ⟨Decomp.canonName Gen.ruleAlias g.name, g.targets, g.controls, g.arg⟩ else g
         else gs
-      match transpileD Gen.tables pre Gen.sizeGuard (Gen.deviceSpec d) (Gen.deviceSpecSmall d) m n gs with
+      let rz := match fNat? fs "rz" with | some k => k != 0 | none => Gen.routeRzx
+      match transpileDR Gen.tables pre Gen.sizeGuard rz (Gen.deviceSpec d) (Gen.deviceSpecSmall d) m n gs with
       | .ok out => "ok " ++ showGates out
       | .error .size => "err size"
       | .error (.inner e) => showErr e
@@ -72,7 +73,7 @@ def step (line : String) : String :=
       "ok " ++ ",".intercalate (gs.map fun g => if gateCoupledB (Gen.deviceSpec d).topo n g then "1" else "0")
     | _, _, _ => "bad-op"
   | some "tables" =>
-    s!"pre={if Gen.preDecompose then 1 else 0} guard={if Gen.sizeGuard then 1 else 0} " ++
+    s!"pre={if Gen.preDecompose then 1 else 0} guard={if Gen.sizeGuard then 1 else 0} rzx={if Gen.routeRzx then 1 else 0} " ++
       " ".intercalate (devices.map fun (nm, d) =>
         nm ++ "=" ++ showSpec (Gen.deviceSpec d) ++ ":" ++ showSetup (Gen.deviceSpecSmall d).topo)
   | _ => "bad-op"
